@@ -54,7 +54,9 @@ let () =
                     [ show (by_name farith fpow fcmp i2f o l r);
                       (match fold farith fpow fcmp i2f o l r with Some v -> show (Ok v) | None -> g);
                       (if ka = "I" then show (typed_int farith fpow fcmp i2f o l r)
-                       else if has_float_opcode o then show (typed_float farith fpow fcmp i2f o l r) else g) ]
+                       else if has_float_opcode o then show (typed_float farith fpow fcmp i2f o l r) else g);
+                      (* the statically bound Int overload / Go backend helper value.XInts *)
+                      (if ka = "I" && kb = "I" then show (x_ints o l r) else g) ]
                   in
                   if List.for_all (fun x -> x = g) others then g else "paths-disagree " ^ String.concat "|" (g :: others)
                 with Failure m -> "model-failure " ^ m
